@@ -1,0 +1,79 @@
+//go:build verif
+
+package nfsv4
+
+import (
+	"fmt"
+
+	"github.com/buildbarn/go-xdr/pkg/protocols/nfsv4"
+)
+
+// Read-only lock probes for the runtime verification harnesses
+// (property C14). Every probe is TryLock followed by Unlock, so it
+// never blocks and never changes state. Probes must only be called at
+// quiescent points, i.e. when no COMPOUND is in flight.
+
+// VerifLockProbeProgram returns the names of all locks belonging to
+// an NFSv4 program that are currently held. known is false if the
+// program is not one that was created by NewNFS40Program(),
+// NewNFS41Program(), NewMinorVersionFallbackProgram() or
+// NewMetricsProgram().
+func VerifLockProbeProgram(program nfsv4.Nfs4Program) (held []string, probed int, known bool) {
+	switch p := program.(type) {
+	case *nfs40Program:
+		probed++
+		if !p.lock.TryLock() {
+			return []string{"nfs40Program.lock"}, probed, true
+		}
+		p.lock.Unlock()
+		return nil, probed, true
+	case *nfs41Program:
+		probed++
+		if !p.clientsLock.TryLock() {
+			return []string{"nfs41Program.clientsLock"}, probed, true
+		}
+		for _, cis := range p.clientIncarnationsByClientID {
+			probed++
+			if !cis.lock.TryLock() {
+				held = append(held, fmt.Sprintf("clientIncarnationState.lock(holdCount=%d)", cis.holdCount))
+				continue
+			}
+			cis.lock.Unlock()
+		}
+		p.clientsLock.Unlock()
+		return held, probed, true
+	case *minorVersionFallbackProgram:
+		known = true
+		for _, backend := range p.backends {
+			h, n, k := VerifLockProbeProgram(backend)
+			held = append(held, h...)
+			probed += n
+			known = known && k
+		}
+		return held, probed, known
+	case *metricsProgram:
+		return VerifLockProbeProgram(p.Nfs4Program)
+	default:
+		return nil, 0, false
+	}
+}
+
+// VerifLockProbeOpenedFilesPool returns the names of all locks
+// belonging to an OpenedFilesPool and the files that it contains that
+// are currently held.
+func VerifLockProbeOpenedFilesPool(ofp *OpenedFilesPool) (held []string, probed int) {
+	probed++
+	if !ofp.lock.TryLock() {
+		return []string{"OpenedFilesPool.lock"}, probed
+	}
+	for _, of := range ofp.filesByHandle {
+		probed++
+		if !of.locksLock.TryLock() {
+			held = append(held, "OpenedFile.locksLock")
+			continue
+		}
+		of.locksLock.Unlock()
+	}
+	ofp.lock.Unlock()
+	return held, probed
+}
